@@ -109,6 +109,7 @@ static void build(vf::Plan &plan, const vf::Opts &o)
                [](uint64_t i) { return strf("value %X", i < 32 ? (1u << i) : (0xFFFFFFFFu >> (i - 32))); });
     add_position_sweep(plan, T ? 300 : 70, all);
 #endif
+    vf_early::add_stage(plan);
 }
 
 VF_MAIN("C02", build)
